@@ -17,12 +17,12 @@ Variable ver : name -> name.
    reception, further crashes.  Nothing unvalidated is ever delivered. *)
 Theorem C06_nothing_unvalidated_after_crash : forall img ops t body,
   Inv H ver img -> Forall (op_in_D H ver) ops ->
-  In (t, body) (finals (srun H init_stage (OImage img :: ORestart 0 :: ops))) ->
-  exists r, In r (rlog (srun H init_stage (OImage img :: ORestart 0 :: ops))) /\
+  In (t, body) (finals (srun H init_stage (OImage img :: ORestart 0 0 :: ops))) ->
+  exists r, In r (rlog (srun H init_stage (OImage img :: ORestart 0 0 :: ops))) /\
             rec_target r = t /\ H body = l_hash r /\ l_hash r = ver (l_name r).
 Proof.
   intros img ops t body Himg HD Hin.
-  apply (delivered_valid_on_D H ver (OImage img :: ORestart 0 :: ops)); auto.
+  apply (delivered_valid_on_D H ver (OImage img :: ORestart 0 0 :: ops)); auto.
   constructor; [exact Himg|]. constructor; [exact I|]. exact HD.
 Qed.
 
